@@ -456,6 +456,8 @@ def replay_c08_inv(args):
         if which == "prime_field_inv":
             cases += [(n, n), (n + 1, n), (-1, n), (2 * n, n)]
     for a, n in cases:
+        if which != "prime_field_inv" and not 0 <= a < n:
+            continue          # secp256k1.inv is only ever called on reduced residues (its contract in C18); prime_field_inv reduces itself
         try:
             v = f(a, n)
         except Exception as e:
@@ -757,6 +759,16 @@ def replay_c11_g1(args):
             got = ("other exception", repr(e))
         if got[0] != exp[0] or (got[0] == "pt" and got != exp):
             bad.append((hex(z)[:24], got[:1], exp))
+    # infinity in every projective form
+    from py_ecc.optimized_bls12_381 import FQ, Z1, G1, multiply, double, neg, add
+    for nm, P in (("Z1", Z1), ("double(Z1)", double(Z1)), ("neg(Z1)", neg(Z1)), ("(5, 7, 0)", (FQ(5), FQ(7), FQ(0))), ("(0, 0, 0)", (FQ(0), FQ(0), FQ(0))),
+                  ("G1 + (-G1)", add(G1, neg(G1)))):
+        try:
+            w = pc.compress_G1(P)
+            if w != (1 << 383) + (1 << 382) or int(pc.decompress_G1(w)[2]) != 0:
+                bad.append(("infinity representative %s compresses to %s" % (nm, hex(w)[:12]),))
+        except Exception as e:
+            bad.append(("infinity representative %s: %r" % (nm, e),))
     return (len(bad) > 0), "c11_g1: %d mismatches; first %s" % (len(bad), str(bad[:2])[:300])
 
 
@@ -775,6 +787,20 @@ def replay_c11_g1_point(args):
                 bad.append(("encoding of (x, y) differs from the format", x0, y0))
         except Exception as e:
             bad.append((repr(e)[:80], x0, y0))
+    # repair of the abstracted hypothesis: the solver's x need not be an x-coordinate (products are uninterpreted);
+    # move to the nearest x-coordinates of real curve points (same high-order bits)
+    x_model = xs[0]
+    if x_model != 0:
+        for sgn in (1, -1):
+            for d in range(0, 64):
+                xx = x_model + sgn * d
+                if not 0 < xx < q:
+                    break
+                t = (xx ** 3 + 4) % q
+                if pow(t, (q - 1) // 2, q) == 1:
+                    if xx not in xs:
+                        xs.append(xx)
+                    break
     for x in xs:
         t = (x ** 3 + 4) % q
         y = pow(t, (q + 1) // 4, q)
@@ -962,6 +988,14 @@ def replay_c11_g2(args):
                 bad.append(("compress_G2 differs from the format (%s y)" % kind, x[0] % 1000, got[0] >> 381, w[0] >> 381))
         except Exception as e:
             bad.append((repr(e)[:60], kind))
+    from py_ecc.optimized_bls12_381 import Z2 as _Z2, G2 as _G2, double as _dbl, neg as _neg, add as _add
+    for nm, P in (("Z2", _Z2), ("double(Z2)", _dbl(_Z2)), ("neg(Z2)", _neg(_Z2)), ("(x, y, 0)", (FQ2([5, 1]), FQ2([7, 2]), FQ2([0, 0]))), ("G2 + (-G2)", _add(_G2, _neg(_G2)))):
+        try:
+            w = tuple(pc.compress_G2(P))
+            if w != ((1 << 383) + (1 << 382), 0) or pc.decompress_G2(w)[2] != FQ2([0, 0]):
+                bad.append(("infinity representative %s compresses to %s" % (nm, hex(w[0])[:12]),))
+        except Exception as e:
+            bad.append(("infinity representative %s: %r" % (nm, e),))
     for (w1, w2) in pairs:
         exp = zcash_decode_g2(w1, w2)
         try:
@@ -1124,6 +1158,15 @@ def _related_battery(sk=None, msg=None):
     out.append(("pop canonical", lambda: Pop.PopVerify(ppk, Pop.PopProve(sk)), True))
     apk = Aug.SkToPk(sk)
     out.append(("aug without prefix", lambda: Aug.Verify(apk, m, Aug._CoreSign(sk, m, Aug.DST)), False))
+    # the same candidates AFTER the legitimate verification of the same triple (no answer may be remembered across tags)
+    s_on_pk = Pop.Sign(sk, ppk)
+    out.append(("sig as pop, after the honest Verify", lambda: (Pop.Verify(ppk, ppk, s_on_pk), Pop.PopVerify(ppk, s_on_pk))[1], False))
+    proof = Pop.PopProve(sk)
+    out.append(("pop as sig, after the honest PopVerify", lambda: (Pop.PopVerify(ppk, proof), Pop.Verify(ppk, ppk, proof))[1], False))
+    bsig = Basic.Sign(sk, m)
+    out.append(("other suite, after the honest Verify", lambda: (Basic.Verify(pk, m, bsig), Pop.Verify(pk, m, bsig))[1], False))
+    asig = Aug.Sign(sk, m)
+    out.append(("aug signature checked by the basic suite on PK || m, after the honest Verify", lambda: (Aug.Verify(apk, m, asig), Pop.Verify(apk, apk + m, asig))[1], False))
     return out
 
 
@@ -1200,6 +1243,15 @@ def replay_bls_aggverify(args):
             if sname == "G2Basic" and n > 1:
                 same = [S.Sign(sks[i], b"same") for i in range(n)]
                 tests.append(("repeated message (basic)", pks[:n], [b"same"] * n, S.Aggregate(same), False))
+            if sname != "G2Basic" and n > 1:
+                same = [S.Sign(sks[i], b"same") for i in range(n)]
+                tests.append(("repeated message (allowed in this suite)", pks[:n], [b"same"] * n, S.Aggregate(same), True))
+            if n == 2:
+                # signers with opposite keys sk and r - sk: the aggregate key is the identity, AggregateVerify has no such precondition
+                ko = [7, _R - 7]
+                mo = [b"m1", b"m2"] if sname == "G2Basic" else [b"mm", b"mm"]
+                tests.append(("opposite keys", [S.SkToPk(k) for k in ko], mo, S.Aggregate([S.Sign(k, m_) for k, m_ in zip(ko, mo)]), True))
+                tests.append(("opposite keys, distinct messages", [S.SkToPk(k) for k in ko], [b"m1", b"m2"], S.Aggregate([S.Sign(k, m_) for k, m_ in zip(ko, [b"m1", b"m2"])]), True))
             for name, P, M, sg, exp in tests:
                 try:
                     got = S.AggregateVerify(P, M, sg)
@@ -1232,7 +1284,7 @@ def _malformed_keys():
            ("two leading bytes", b"\x00\x00" + pk), ("trailing byte", pk + b"\x00"), ("96 bytes", pk + pk), ("identity", G1_to_pubkey(Z1)),
            ("zero-padded short", b"\x00" * 48), ("random", bytes(range(48))), ("200 bytes", pk * 4 + pk[:8])]
     for fl in range(8):
-        if fl != (z >> 381):
+        if fl != (z >> 381) and fl != ((z >> 381) ^ 1):       # flipping only the sign flag gives the (valid) key -P
             out.append(("flags %d" % fl, ((fl << 381) | (z % 2 ** 381)).to_bytes(48, "big")))
     for x, nm in ((q, "x=q"), (q + 1, "x=q+1"), (2 ** 381 - 1, "x=2^381-1"), (q - 1, "x=q-1"), (1, "x=1"), (5, "x=5 (maybe off curve)")):
         out.append((nm, ((4 << 381) | x).to_bytes(48, "big")))
@@ -1671,14 +1723,17 @@ def replay_c19_recover(args):
             cases.append((int(args.get("z", 1)), vv, int(args["r"]), int(args.get("s", 1))))
             cases.append((int(args.get("z", 1)), vv, int(args["r"]), max(1, int(args.get("s", 1)) % _SN)))
         # repair: the solver's r may not be an abscissa; also try the neighbouring valid / invalid abscissae with the same v, s
-        for x in xs_valid[:2] + xs_invalid[:1]:
+        for x in xs_valid[:2] + xs_invalid[:10]:
             cases.append((int(args.get("z", 1)), int(args["v"]), x, int(args.get("s", 1))))
+    for x in xs_invalid[:10]:
+        for vv in (27, 28):
+            cases.append((rng.randrange(2 ** 256), vv, x, 12345))
     for v in (0, 1, 26, 27, 28, 29, 35):
         for r in (0, 1, xs_valid[0], xs_invalid[0], _SN - 1, _SN, _SN + 1, _SP - 1, aff_mul(_SG, 77, _SP)[0]):
             for s in (0, 1, (_SN - 1) // 2, (_SN + 1) // 2, _SN - 1, _SN, _SN + 1, 12345):
                 if v in (27, 28) or (r, s) == (1, 1):
                     cases.append((rng.randrange(2 ** 256), v, r, s))
-    for z, v, r, s in cases[:260]:
+    for z, v, r, s in cases[:320]:
         h = z.to_bytes(max(1, (z.bit_length() + 7) // 8), "big")
         zz = int.from_bytes(h, "big")
         exp = _oracle_recover(zz, v, r, s)
@@ -1793,6 +1848,13 @@ def replay_c07_ref(args):
         a = (rng.randrange(1, p), rng.randrange(1, p))
         b = (rng.randrange(1, p), rng.randrange(1, p))
         cases += [(a, b), (a, a), (a, (a[0], -a[1] % p)), (None, b), (a, None), (None, None)]
+    for a in ((0, 0), (0, 5), (7, 0), (1, 1)):
+        try:
+            bb = (a[1] ** 2 - a[0] ** 3) % p
+            if m.is_on_curve(mk(a), FQ(bb)) is not True or m.is_on_curve(mk(a), FQ(bb + 1)) is not False or m.is_inf(mk(a)):
+                bad.append(("is_on_curve / is_inf on a finite pair with zero coordinates", a))
+        except Exception as e:
+            bad.append((repr(e)[:60], a))
     for a, b in cases:
         try:
             got = un(m.add(mk(a), mk(b)))
@@ -1844,7 +1906,8 @@ def replay_c07_multiply(args):
 def replay_c07_twist(args):
     """twist against an independent computation: it must map E'(F_p^2) points to points of y^2 = x^3 + b over F_p^12, be additive and injective."""
     curve, impl = args["curve"], args["impl"]
-    m = importlib.import_module((_REF_MODS if impl == "ref" else _CURVE_MODS)[curve])
+    m = importlib.import_module({("ref", "bn128"): "py_ecc.bn128.bn128_curve", ("ref", "bls12_381"): "py_ecc.bls12_381.bls12_381_curve",
+                                 ("opt", "bn128"): "py_ecc.optimized_bn128.optimized_curve", ("opt", "bls12_381"): "py_ecc.optimized_bls12_381.optimized_curve"}[(impl, curve)])
     bad = []
     P = m.G2
     Q = m.multiply(m.G2, 5)
@@ -1883,6 +1946,14 @@ def replay_c07_twist(args):
         exp[shift + 6] = c1 % p
         if [int(c) for c in base.coeffs] != exp:
             bad.append(("coefficients",))
+        if impl == "opt":
+            # every projective representative twists to the same point (incl. purely real / purely imaginary z)
+            t0 = tw(P)
+            for lam in ([0, 5], [3, 0], [2, 7], [1, 1]):
+                L = m.FQ2(lam)
+                t1 = tw((P[0] * L, P[1] * L, P[2] * L))
+                if t0[0] * t1[2] != t1[0] * t0[2] or t0[1] * t1[2] != t1[1] * t0[2] or t1[2] == m.FQ12.zero():
+                    bad.append(("twist depends on the representative", lam))
         # y coordinate and cross-module agreement: affine twist = (psi(x) u^2, psi(y) u^3) with the standard u
         T = tw((P[0], P[1])) if impl == "ref" else tw(P)
         if impl == "opt":
@@ -2280,6 +2351,17 @@ def replay_c12_finalexp(args):
             bad.append(("final_exponentiate",))
     if pm.exp_by_p(FQ12.zero()) != FQ12.zero():
         bad.append(("exp_by_p(0)",))
+    # sparse / unit-coefficient shapes
+    for cs in ([2, 1] + [0] * 10, [5] * 11 + [1], [1] * 12, [0, 0, 1, 0, 0, 0, 0, 7, 0, 0, 0, 1], [p - 1, 1, p - 1, 1] + [0] * 8):
+        x = FQ12(cs)
+        if pm.exp_by_p(x) != x ** p:
+            bad.append(("exp_by_p on unit / sparse coefficients", cs[:4]))
+    # the other three modules: final_exponentiate is the plain power
+    for name in ("py_ecc.optimized_bn128.optimized_pairing", "py_ecc.bn128.bn128_pairing", "py_ecc.bls12_381.bls12_381_pairing"):
+        m = importlib.import_module(name)
+        x = m.FQ12([rng.randrange(m.field_modulus) for _ in range(12)])
+        if m.final_exponentiate(x) != x ** ((m.field_modulus ** 12 - 1) // m.curve_order):
+            bad.append(("final_exponentiate", name))
     return (len(bad) > 0), "c12_finalexp: %s" % bad[:3]
 
 
@@ -2302,6 +2384,9 @@ def replay_c20_purity(args):
     pairs = sorted([(pk, b"m", sk), (S.SkToPk(7), b"n", 7), (S.SkToPk(9), b"o", 9)], reverse=True)      # descending: an in-place sort would be visible
     keys, msgs = [p_[0] for p_ in pairs], [p_[1] for p_ in pairs]
     agg = S.Aggregate([S.Sign(p_[2], p_[1]) for p_ in pairs])
+    agg_same = S.Aggregate([S.Sign(p_[2], b"m") for p_ in pairs])
+    A_ = bls.G2MessageAugmentation
+    agg_aug = A_.Aggregate([A_.Sign(p_[2], p_[1]) for p_ in pairs])
     calls = []
     for m in (bn128, bls12_381, optimized_bn128, optimized_bls12_381):
         calls += [(m.__name__ + ".add", lambda m=m: m.add(m.G1, m.multiply(m.G1, 2))), (m.__name__ + ".multiply", lambda m=m: m.multiply(m.G2, 9)),
@@ -2313,10 +2398,10 @@ def replay_c20_purity(args):
               ("expand_message_xmd", lambda: H.expand_message_xmd(b"m", b"d", 77, hashlib.sha256)), ("hkdf", lambda: bytes(H.hkdf_expand(H.hkdf_extract(b"s", b"i"), b"x", 70))),
               ("compress/decompress", lambda: (pc.decompress_G1(pc.compress_G1(ob.G1)), pc.decompress_G2(pc.compress_G2(ob.G2)))),
               ("KeyGen", lambda: S.KeyGen(b"\x01" * 32)), ("SkToPk", lambda: S.SkToPk(sk)), ("Sign", lambda: S.Sign(sk, b"m")), ("Verify", lambda: S.Verify(pk, b"m", sig)),
-              ("AggregateVerify", lambda: S.AggregateVerify(keys, msgs, agg)), ("FastAggregateVerify", lambda: S.FastAggregateVerify(keys, b"m", agg)),
+              ("AggregateVerify", lambda: S.AggregateVerify(keys, msgs, agg)), ("FastAggregateVerify", lambda: S.FastAggregateVerify(keys, b"m", agg_same)),
               ("Aggregate", lambda: S.Aggregate([sig, sig])), ("PopProve/PopVerify", lambda: S.PopVerify(pk, S.PopProve(sk))),
               ("G2Basic", lambda: bls.G2Basic.Verify(bls.G2Basic.SkToPk(5), b"x", bls.G2Basic.Sign(5, b"x"))),
-              ("G2MessageAugmentation", lambda: bls.G2MessageAugmentation.AggregateVerify(keys, msgs, agg)),
+              ("G2MessageAugmentation", lambda: bls.G2MessageAugmentation.AggregateVerify(keys, msgs, agg_aug)),
               ("secp256k1", lambda: (secp256k1.privtopub(b"\x05" * 32), secp256k1.ecdsa_raw_recover(b"\x01" * 32, secp256k1.ecdsa_raw_sign(b"\x01" * 32, b"\x05" * 32)),
                                       secp256k1.multiply(secp256k1.G, -3), secp256k1.add(secp256k1.G, secp256k1.G))),
               ("swu/iso", lambda: (ob.optimized_swu_G2(ob.FQ2([1, 2])), ob.iso_map_G1(ob.FQ(1), ob.FQ(2), ob.FQ(3))))]
@@ -2331,7 +2416,8 @@ def replay_c20_purity(args):
     bad_sk = int(args["sk"]) if str(args.get("sk", "")).lstrip("-").isdigit() else 0
     for bsk in (bad_sk, 0, _R, -1):
         calls += [("refusing PopProve(%d...)" % (bsk % 1000), lambda bsk=bsk: refused(lambda: S.PopProve(bsk))),
-                  ("refusing Sign", lambda bsk=bsk: refused(lambda: bls.G2Basic.Sign(bsk, b"m"))), ("Sign after a refusal", lambda: S.Sign(sk, b"m"))]
+                  ("refusing Sign(%d...)" % (bsk % 1000), lambda bsk=bsk: refused(lambda: bls.G2Basic.Sign(bsk, b"m"))),
+                  ("Sign after a refusal (%d...)" % (bsk % 1000), lambda: S.Sign(sk, b"m"))]
     # constructors must not rewrite caller-owned lists
     from py_ecc import fields as F_
 
@@ -2485,3 +2571,35 @@ def replay_c18_small(args):
         for k, v in saved.items():
             setattr(sp, k, v)
     return (len(bad) > 0), "c18_small GF(%d): %d mismatches %s" % (p, len(bad), str(bad[:3])[:200])
+
+
+def replay_c07_small_opt(args):
+    """optimized projective module vs independent affine arithmetic, exhaustively on a small curve."""
+    from py_ecc.fields import optimized_field_elements as ofe
+    m = importlib.import_module(_CURVE_MODS[args["curve"]])
+    p, b = args["p"], args["b"]
+    T = type("SmallOptFQ", (ofe.FQ,), {"field_modulus": p})
+    pts = [None] + [(x, y) for x in range(p) for y in range(p) if (y * y - x * x * x - b) % p == 0]
+    reps = lambda P: [(T(1), T(1), T(0)), (T(3), T(0), T(0))] if P is None else [(T(P[0] * z), T(P[1] * z), T(z)) for z in range(1, p)]
+
+    def un(S):
+        if int(S[2]) == 0:
+            return None
+        zi = pow(int(S[2]), p - 2, p)
+        return (int(S[0]) * zi % p, int(S[1]) * zi % p)
+    bad = []
+    try:
+        for P in pts:
+            for Pr in reps(P)[:3]:
+                for Q in pts:
+                    for Qr in reps(Q)[:3]:
+                        if un(m.add(Pr, Qr)) != aff_add(P, Q, p):
+                            bad.append(("add", P, Q))
+                if un(m.double(Pr)) != aff_add(P, P, p):
+                    bad.append(("double", P))
+                for n in range(0, 22):
+                    if un(m.multiply(Pr, n)) != aff_mul(P, n, p):
+                        bad.append(("multiply", P, n))
+    except Exception as e:
+        bad.append((repr(e)[:60],))
+    return (len(bad) > 0), "c07_small_opt GF(%d): %d failures %s" % (p, len(bad), str(bad[:3])[:200])
